@@ -10,10 +10,26 @@ def hist(name, test, quick_cases, thorough_cases, env=None, quick_ms=40000, thor
     return {"name": name, "test": test, "cases": {"quick": quick_cases, "thorough": thorough_cases},
             "budget_ms": {"quick": quick_ms, "thorough": thorough_ms}, "env": env or {}}
 
+def sched(name, test, quick_cases, thorough_cases, schedules_quick=24, schedules_thorough=200, free=False, quick_ms=40000, thorough_ms=900000):
+    env = {"VERIF_SCHEDULES": str(schedules_quick)}
+    st = {"name": name, "test": test, "cases": {"quick": quick_cases, "thorough": thorough_cases},
+          "budget_ms": {"quick": quick_ms, "thorough": thorough_ms}, "env": env,
+          "env_thorough": {"VERIF_SCHEDULES": str(schedules_thorough)}}
+    if free:
+        env["VERIF_MODE"] = "free"
+        st["pin"] = False
+    return st
+
+SCHED_ASSUME = [
+    "the scheduler shim (harness/shim.rs) yields only at points where real threads can be preempted (thread start/finish, join, channel send/recv, every System call, every command step) and implements std's documented channel semantics",
+    "graphs <= 6 rules (8 thorough) under the scheduler; schedules are sampled (uniform random walk, PCT with 1-3 priority changes, serial with 1-4 preemptions), not enumerated",
+    "the free-running stage uses std threads/channels unchanged, with random jitter at System calls",
+]
+
 PROPS = {
     "C01": {
         "level": "exploration",
-        "stages": [hist("hist", "hist::hist_c01", 600, 12000)],
+        "stages": [hist("hist", "hist::hist_c01", 500, 12000)],
         "rule": "case = one successful build inside a random history, judged byte-for-byte against the from-scratch model; distinct by (graph-shape hash, operation-kind sequence up to that build); non-trivial when the build was incremental (an earlier build succeeded) and the event log shows both a rule whose command did not run and a rule that ran or had a target restored from the cache",
         "floor": {"quick": 200, "thorough": 2000},
         "assumptions": COMMON_ASSUME + ["clock model A: every write takes a distinct modification time"],
@@ -71,5 +87,33 @@ PROPS = {
         "rule": "case = one build whose recorded Printer calls are compared with the System-call log of the same build (Built <=> command ran, Recovered <=> moved in from the cache, Up-to-date <=> untouched, none for failed/cancelled rules); distinct by (graph shape, history prefix, schedule); non-trivial when at least two different banners were printed or a failure occurred",
         "floor": {"quick": 200, "thorough": 2000},
         "assumptions": COMMON_ASSUME,
+    },
+    "C03": {
+        "level": "exploration",
+        "stages": [sched("sched", "sched::sched_c03", 150, 1500), sched("free", "sched::sched_c03", 40, 600, schedules_quick=10, schedules_thorough=30, free=True)],
+        "rule": "case = one execution of a scenario's final build under one schedule; inside it every command start is checked online (each declared source holds exactly the bytes the reference model assigns) and every ticket handed to a dependent is compared with the true hash of the producing file at that instant and of its final content; distinct by (scenario, interleaving identity = scheduler choice list, or observed thread order of System calls when free-running); non-trivial when a command with a produced source ran and at least one scheduling decision had >= 2 runnable threads",
+        "floor": {"quick": 500, "thorough": 20000},
+        "assumptions": COMMON_ASSUME + SCHED_ASSUME,
+    },
+    "C04": {
+        "level": "exploration",
+        "stages": [sched("sched", "sched::sched_c04", 150, 1500), sched("free", "sched::sched_c04", 40, 600, schedules_quick=10, schedules_thorough=30, free=True), hist("hist", "hist::hist_c04", 250, 6000)],
+        "rule": "case = one execution of a build with injected failures (command exits non-zero, command skips a declared target, unknown program, missing leaf; 1-3 per scenario) under one schedule, or one build of a failure-biased random history; verdict and error list are compared with the model's failing set, cancelled rules must not run (online), independent rules must be correct, repeated and repaired builds are judged again; distinct by (scenario or history prefix, interleaving identity); non-trivial when at least one rule/leaf fails and an independent rule had work to do",
+        "floor": {"quick": 300, "thorough": 10000},
+        "assumptions": COMMON_ASSUME + SCHED_ASSUME,
+    },
+    "C05": {
+        "level": "exploration",
+        "stages": [sched("sched", "sched::sched_c05", 150, 1500), sched("free", "sched::sched_c05", 40, 600, schedules_quick=10, schedules_thorough=30, free=True), hist("hist", "hist::hist_c05", 250, 6000)],
+        "rule": "case = one execution of build or clean under one schedule; deadlock is decided logically by the scheduler (no runnable thread), panics are caught at thread and call boundaries, SenderError/ReceiverError/Weird results are violations; distinct by (scenario, interleaving identity); non-trivial when at least 3 logical threads existed",
+        "floor": {"quick": 1000, "thorough": 30000},
+        "assumptions": COMMON_ASSUME + SCHED_ASSUME + ["free-running hangs would only be seen as a watchdog timeout (inconclusive); the logical decision is made in scheduler mode"],
+    },
+    "C06": {
+        "level": "exploration",
+        "stages": [sched("sched", "sched::sched_c06", 150, 1500, schedules_quick=30, schedules_thorough=300), sched("free", "sched::sched_c06", 40, 600, schedules_quick=15, schedules_thorough=40, free=True)],
+        "rule": "case = one scenario (graph + prepared state, biased to cleaned byte-identical twins) whose final build is executed under many schedules from the same snapshot; verdict and all workspace bytes must agree across schedules; distinct by scenario; non-trivial when >= 2 distinct interleavings were compared and >= 2 threads performed cache operations",
+        "floor": {"quick": 50, "thorough": 1000},
+        "assumptions": COMMON_ASSUME + SCHED_ASSUME,
     },
 }
